@@ -81,7 +81,23 @@ var kvKeys = [][]byte{
 
 type appendMO struct{}
 
+// kvPoison is the first byte of a merge operand that the merge operators refuse (FullMerge / PartialMerge return
+// false): the injected fault of the KV scenario. A batch that carries one must fail as a whole.
+const kvPoison = 0xEE
+
+func poisoned(ops ...[]byte) bool {
+	for _, o := range ops {
+		if len(o) > 0 && o[0] == kvPoison {
+			return true
+		}
+	}
+	return false
+}
+
 func (appendMO) FullMerge(key, existing []byte, operands [][]byte) ([]byte, bool) {
+	if poisoned(operands...) {
+		return nil, false
+	}
 	r := append([]byte(nil), existing...)
 	for _, o := range operands {
 		r = append(r, o...)
@@ -89,6 +105,9 @@ func (appendMO) FullMerge(key, existing []byte, operands [][]byte) ([]byte, bool
 	return r, true
 }
 func (appendMO) PartialMerge(key, l, r []byte) ([]byte, bool) {
+	if poisoned(l, r) {
+		return nil, false
+	}
 	return append(append([]byte(nil), l...), r...), true
 }
 func (appendMO) Name() string { return "append" }
@@ -106,6 +125,9 @@ func le(b []byte) uint64 {
 	return binary.LittleEndian.Uint64(b)
 }
 func (counterMO) FullMerge(key, existing []byte, operands [][]byte) ([]byte, bool) {
+	if poisoned(operands...) {
+		return nil, false
+	}
 	v := le(existing)
 	for _, o := range operands {
 		v += le(o)
@@ -115,6 +137,9 @@ func (counterMO) FullMerge(key, existing []byte, operands [][]byte) ([]byte, boo
 	return rv, true
 }
 func (counterMO) PartialMerge(key, l, r []byte) ([]byte, bool) {
+	if poisoned(l, r) {
+		return nil, false
+	}
 	rv := make([]byte, 8)
 	binary.LittleEndian.PutUint64(rv, le(l)+le(r))
 	return rv, true
@@ -187,6 +212,15 @@ func genKV(c *core.Ctx) (KVCfg, KVWL) {
 						v = ""
 					}
 					op.Ops = append(op.Ops, KVBOp{T: "set", Key: k, Val: v})
+				}
+			}
+			if !cfg.Conc && !strings.HasPrefix(cfg.Store, "moss") && len(op.Ops) > 0 && g.Intn(12) == 0 {
+				// the fault: one more merge, on a key the batch does not touch yet, whose operand the operator refuses
+				for try := 0; try < 5; try++ {
+					if k := g.Intn(nk); !used[k] {
+						op.Ops = append(op.Ops, KVBOp{T: "merge", Key: k, Val: KVVal([]byte{kvPoison, 0, 0, 0, 0, 0, 0, 0})})
+						break
+					}
 				}
 			}
 			wl.Ops = append(wl.Ops, op)
@@ -352,6 +386,22 @@ func kvScenario(c *core.Ctx) {
 			if err != nil {
 				viol("writer-error", "NewBatchEx: %v", err)
 				break
+			}
+			refused := false
+			for _, bo := range op.Ops {
+				if bo.T == "merge" && poisoned([]byte(bo.Val)) {
+					refused = true
+				}
+			}
+			if refused {
+				// the merge operator refuses an operand of this batch: ExecuteBatch has to fail and leave the store as it
+				// was (every later read is still compared with the map without this batch)
+				c.Fault("merge_operator_refused")
+				if err := w.ExecuteBatch(b); err == nil {
+					viol("refused-batch-acknowledged", "ExecuteBatch returned nil for a batch one of whose merges the merge operator refused")
+				}
+				_ = w.Close()
+				continue
 			}
 			applyKVBatch(m, mo, op)
 			if err := w.ExecuteBatch(b); err != nil {
